@@ -63,3 +63,13 @@ Definition ex_cfg_enc (reg_alg : option pystr) : rp_cfg :=
   mkCfg ex_iss (Some ex_iss) ex_cid reg_alg (Some (PS "RS256")) false 0 false ex_jar
         (Some (PS "RSA-OAEP")) (Some (PS "A256GCM")) [11%nat].
 Definition wrapped (t : token) (w : jwe_wrap) : token := mkTok (t_alg t) (t_kid t) (t_signer t) (t_claims t) (Some w).
+
+(* hybrid flows ("code id_token token"): what the provider hands out for the flow started with state st and
+   nonce nonce - a code, an access token and an RS256 ID Token with the c_hash / at_hash of exactly these *)
+Definition ex_flow (st nonce code atok jwt sub : pystr) : flow :=
+  mkFlow st nonce code atok jwt
+         (mkTok (PS "RS256") (Some (PS "r1")) (Some 0%nat)
+                (ex_claims ex_iss nonce sub [(PS "c_hash", VStr (ex_lhash (PS "256") code));
+                                             (PS "at_hash", VStr (ex_lhash (PS "256") atok))]) None).
+Definition ex_flow_a : flow := ex_flow (PS "S1") (PS "N1") (PS "C1") (PS "A1") (PS "JWT#A") (PS "diana").
+Definition ex_flow_b : flow := ex_flow (PS "S2") (PS "N2") (PS "C2") (PS "A2") (PS "JWT#B") (PS "bob").
